@@ -66,9 +66,13 @@ def run_c14(chk):
              # leap days: projects that begin in the week of (or before) 29 February, with absences and pinned dates, so that
              # 29 February is written out in the text
              Knobs(p_tz=0.0, envelope="asap", p_gvac=0.8, p_leave=0.8, p_pin=0.5, p_limits=0.2, p_month=0.0, dur_weeks=[1, 2],
-                   max_res=2, starts=[1708905600, 1708300800, 1835308800, 1834704000, 1961107200, 1582502400])]
+                   max_res=2, starts=[1708905600, 1708300800, 1835308800, 1834704000, 1961107200, 1582502400]),
+             # long tasks under weekly limits in projects whose length is given in months (see below): where the weeks of a limit
+             # begin must not depend on where the project ends
+             Knobs(p_tz=0.0, envelope="asap", p_limits=0.9, p_tasklimits=0.4, big_effort=0.7, max_res=2, max_tasks=5, p_month=0.0,
+                   dur_weeks=[3, 4])]
     asts = [w for _, w in SC.witness_asts("C14")]
-    asts += [gen.gen_project(chk.rng, knobs[i % 4]) for i in range(n)]
+    asts += [gen.gen_project(chk.rng, knobs[i % 5]) for i in range(n)]
     # absences measured in months: a blocking booking of `+1m` is thirty days wherever it starts, so the premise holds; a
     # calendar-month reading would make the schedule depend on the month the project happens to begin in
     for i, p in enumerate(asts):
@@ -79,6 +83,18 @@ def run_c14(chk):
                 day = (p["start"] // 86400) * 86400 + chk.rng.randrange(0, 5) * 86400
                 r["bookings"] = [[day + chk.rng.choice([0, 9, 13]) * 3600, chk.rng.choice(["1m", "1m", "2m"])]]
                 p["dur"] = [max(p["dur"][0], 14), "w"]
+    # project lengths that are not whole weeks (`+17d`): the declared end falls on another weekday than the start; nothing may
+    # be anchored at it
+    for i, p in enumerate(asts):
+        if i % 5 == 2 and p.get("dur", [0, "w"])[1] == "w":
+            p["dur"] = [p["dur"][0] * 7 + chk.rng.choice([1, 2, 3, 4, 5, 6]), "d"]
+    # forward-only projects declared with a length in MONTHS: their end moves by another amount than the dates, but nothing in
+    # a forward schedule that fits may depend on where the project ends
+    month_len = set()
+    for i, p in enumerate(asts):
+        if (i % 7 == 3 or i % 5 == 4) and p.get("dur", [0, "w"])[1] == "w" and gen.envelope_of(p) == "asap" and p.get("sched") != "alap":
+            p["dur"] = [chk.rng.choice([2, 3]), "m"]
+            month_len.add(i)
     weeks = [1, 4, 52, 53, 104, 261]
     from .common import replay_asts, replay_items
     replay_weeks = None
@@ -105,6 +121,9 @@ def run_c14(chk):
                 found.append((f"C14: shifting by {k} weeks changes the outcome class", {"ast": asts[i], "weeks": k, "base": str(o1)[:300], "shifted": str(o2)[:300]}))
             continue
         d = k * 604800
+        if asts[i].get("dur", [0, "w"])[1] == "m" and any(
+                not t["scheduled"] for o in (o1, o2) for s in o["scenarios"] for t in s["tasks"].values() if t["leaf"]):
+            continue        # a length in months: only schedules in which everything fits are comparable
         for s1, s2 in zip(o1["scenarios"], o2["scenarios"]):
             t1, t2 = task_table(s1), task_table(s2)
             for fid in t1:
